@@ -33,6 +33,10 @@ CHECKS = {
     "C18": {"scenarios": ["c18"], "quick_budget_s": 45, "thorough_budget_s": 600,
             "real": ["src/tbbmalloc/* incl. memory pools (rml::pool_*), mmap/mremap through the simulator's failure-injecting layer"],
             "assumptions": ["the k-th raw allocation to fail is drawn per run (k in 1..14, single / window / long outage), not enumerated per trace"]},
+    "C19": {"scenarios": ["c19"], "quick_budget_s": 45, "thorough_budget_s": 600,
+            "real": ["include/oneapi/tbb/collaborative_call_once.h, enumerable_thread_specific.h, combinable.h + scheduler (helpers joining the winner's nested parallelism)"]},
+    "C20": {"scenarios": ["c20"], "quick_budget_s": 45, "thorough_budget_s": 600,
+            "real": ["src/tbb/task.cpp (suspend/resume), co_context.h with real ucontext coroutines (makecontext/swapcontext inside simulated threads), task_dispatcher resume paths, arena coroutine cache"]},
     "C08": {"scenarios": ["c08"], "quick_budget_s": 45, "thorough_budget_s": 600,
             "real": ["include/oneapi/tbb/{spin,queuing,}_mutex.h, {spin_rw,queuing_rw,rw}_mutex.h, src/tbb/queuing_rw_mutex.cpp, rtm_mutex.cpp, rtm_rw_mutex.cpp (fallback paths)"],
             "assumptions": ["speculative (RTM) variants run their non-transactional fallback paths only"]},
@@ -62,6 +66,12 @@ ASSUMPTIONS = [
 NOT_APPLICABLE = {}
 
 MANIFEST_TEXT = {
+    "C19": {"level": "Seeded search over schedules (incl. x86-TSO delays on the once flag) of 2-6 callers of collaborative_call_once (some from inside task arenas / task_group tasks so that late arrivals help with the winner's nested parallel_for; attempts that throw chosen by a mask) and of 2-8 threads making first accesses to enumerable_thread_specific (both key-usage types) / combinable while the internal table doubles, with threads exiting and new threads arriving; "
+                     "oracle: exactly one successful execution, every normal return after it and seeing its write, each exception to exactly one caller, flag callable again; one element per thread from exactly one initialiser call, stable address, no sharing, local(exists) truthful, iteration / combine_each / combine visit each element once.",
+            "note": "thread identity is the simulated thread id; element counts <= 12 per run."},
+    "C20": {"level": "Seeded search over schedules of 1-5 tasks calling tbb::task::suspend with resume issued inside the callback (before the suspension took effect), by another TBB task, by a foreign thread at once or after a delay; nested second suspensions; task_group and parallel_for as the enclosing wait; arenas of size 1 (owner recall) to 3 and the implicit arena; oneTBB's real ucontext coroutines run inside the simulated threads; "
+                     "oracle: each suspend point continues exactly once, never before resume() was called, never on two threads at once, never after the enclosing wait returned; the wait returns only when every suspended task finished; lost resumes show as deadlock/livelock.",
+            "note": "__TBB_RESUMABLE_TASKS_USE_THREADS is forced to 0 so that the shipped coroutine implementation (not the sanitizer fallback) is simulated."},
     "C16": {"level": "Seeded search over schedules of 1-4 application threads using 1-3 arenas (max_concurrency 1-4, reserved 0-2, three priorities) through execute / enqueue / task_group waits with isolate, on 1-8 simulated CPUs, optionally under global_control(max_allowed_parallelism, 1..4), with observers on every arena; "
                      "oracle inside every body: threads inside an arena <= max_concurrency (+1 for a one-thread arena with enqueued work), pairwise distinct current_thread_index below the bound, reserved slots only held by application threads, isolation scopes respected while waiting, simultaneous workers in user work <= L-1 (mandatory worker allowed when L-1 == 0); observer entry/exit calls paired per thread.",
             "note": "threads holding a slot without executing a body are not visible to the oracle (it counts bodies); the allotment-sum clause is covered only through oneTBB's internal assertion (known finding recorded)."},
